@@ -163,12 +163,13 @@ def check_case(case, ctx):
         # (g) delay datasets
         if nd > 1:
             ds = rr.randrange(nd)
-            m0 = run(delays=r.delays, prop_kw={'seed': ds}, simctl=(0, 0))
             alone = run(delays=r.delays[ds])
-            if not eq('dataset_mode0', np.asarray(m0.s)[3:], np.asarray(alone.s)[3:], f'global dataset selection {ds} of {nd}'):
-                return
+            for cls_ in ('cpu', 'cuda'):
+                m0 = run(cls=cls_, delays=r.delays, prop_kw={'seed': ds}, simctl=(0, 0))
+                if not eq('dataset_mode0', np.asarray(m0.s)[3:], np.asarray(alone.s)[3:], f'global dataset selection {ds} of {nd} ({cls_} path)'):
+                    return
             sel = [rr.randrange(nd) for _ in range(n)]
-            m1 = run(delays=r.delays, simctl=(sel, 1))
+            m1 = run(cls=rr.choice(['cpu', 'cuda']), delays=r.delays, simctl=(sel, 1))
             for d_ in sorted(set(sel)):
                 al = run(delays=r.delays[d_])
                 lanes = [i for i in range(n) if sel[i] == d_]
